@@ -11,7 +11,8 @@ Perm == << <<0, 1, 0>>, <<0, 0, 1>>, <<1, 0, 0>> >>
 Gen == { [mode |-> "diagonal", A |-> Diag, b |-> Z3],
          [mode |-> "linear", A |-> Shear, b |-> Z3], [mode |-> "linear", A |-> Perm, b |-> Z3],
          [mode |-> "affine", A |-> Shear, b |-> <<1, 0, -1>>], [mode |-> "affine", A |-> Perm, b |-> <<0, 2, 1>>],
-         [mode |-> "affine", A |-> I3, b |-> <<1, 1, 0>>] }
+         [mode |-> "affine", A |-> I3, b |-> <<1, 1, 0>>],
+         [mode |-> "reset", A |-> I3, b |-> Z3] }
 Init == stages = <<>>
 Next == Len(stages) < MaxLen /\ \E s \in Gen : stages' = Append(stages, s)
 Spec == Init /\ [][Next]_stages
